@@ -5,6 +5,7 @@
 #include "sched.h"
 
 #include "llbuild/Basic/ExecutionQueue.h"
+#include "llbuild/Basic/FileSystem.h"
 #include "llbuild/Core/BuildEngine.h"
 
 #include <atomic>
@@ -311,6 +312,44 @@ static void procBody(BodyCtx& ctx, int kind) {
 void P1(BodyCtx& c) { procBody(c, 0); }
 void P2(BodyCtx& c) { procBody(c, 1); }
 
+// ---------------------------------------------------------------------------
+// C13: two threads observe their own (untouched) file through one checksum-only file system at the same time, as two
+// commands finishing together do; every observation must equal the one made before, alone.
+static void hashBody(BodyCtx& ctx) {
+  char tmpl[] = "/dev/shm/verif-hashx-XXXXXX";
+  if (!mkdtemp(tmpl)) { ctx.fail("C13.harness-mkdtemp", "mkdtemp failed"); return; }
+  std::string dir = tmpl, pa = dir + "/a", pb = dir + "/b";
+  {
+    std::string ca(70000, 'a'), cb(70000, 'b');  // several read blocks, equal sizes
+    FILE* f = fopen(pa.c_str(), "w"); fwrite(ca.data(), 1, ca.size(), f); fclose(f);
+    f = fopen(pb.c_str(), "w"); fwrite(cb.data(), 1, cb.size(), f); fclose(f);
+  }
+  {
+    auto fs = basic::ChecksumOnlyFileSystem::from(basic::createLocalFileSystem());
+    basic::FileInfo ra = fs->getFileInfo(pa), rb = fs->getFileInfo(pb);
+    if (ra == rb) ctx.fail("C13.concurrent-reference-equal", "two files with different contents compare equal");
+    std::atomic<int> bad{0};
+    auto work = [&](const std::string& p, const basic::FileInfo& ref) {
+      for (int i = 0; i < 3; ++i) {
+        basic::FileInfo now = fs->getFileInfo(p);
+        if (!(now == ref)) ++bad;
+        sx::yieldPoint();
+      }
+    };
+    std::thread ta([&] { work(pa, ra); }), tb([&] { work(pb, rb); });
+    ta.join();
+    tb.join();
+    if (bad != 0)
+      ctx.fail("C13.concurrent-observation-of-untouched-file-differs", std::to_string(bad.load()) + " of 6 observations made by two threads at the same time differ from "
+                                                                         "the observation of the same untouched file made alone");
+  }
+  unlink(pa.c_str());
+  unlink(pb.c_str());
+  rmdir(dir.c_str());
+  ctx.outcome = "hashed";
+}
+void H1(BodyCtx& c) { hashBody(c); }
+
 void Q1(BodyCtx& c) { queueBody(c, 0, 2, false); }
 // the job submitted from inside a job is High priority: it can be the only thing pending when the queue shuts down
 void Q5(BodyCtx& c) { queueBody(c, 0, 2, false, true); }
@@ -336,5 +375,6 @@ const Body kBodies[] = {
     {"Q6-lane-queue-1-lane-late-high-priority-job", "C16", 2, 3, true, Q6},
     {"P1-lane-queue-launch-vs-cancel", "C16", 1, 2, false, P1},
     {"P2-serial-queue-launch-vs-cancel", "C16", 1, 2, false, P2},
+    {"H1-two-threads-hash-files-checksum-only", "C13", 1, 2, true, H1},
 };
 const int kNumBodies = sizeof(kBodies) / sizeof(kBodies[0]);
